@@ -28,8 +28,10 @@ ASSUMPTIONS = ["migen tracer shim (names only)", "addresses stay inside the 64-w
                "AHB master issues single NONSEQ transfers (the bridge documents no burst support)",
                "Wishbone slaves signal an error as LiteX does (err raised together with ack)",
                "a write answered with an error may or may not have changed each of its bytes"]
-FLOORS = {"quick": {"read_bytes_compared": 60000, "writes": 6000, "n_configs": 36, "slave_side_stability_checks": 5000},
-          "thorough": {"read_bytes_compared": 1000000, "writes": 100000, "n_configs": 36, "slave_side_stability_checks": 100000}}
+FLOORS = {"quick": {"read_bytes_compared": 60000, "writes": 6000, "n_configs": 36, "slave_side_stability_checks": 5000, "socbus_histories": 40,
+                    "n_socbus_adapter_chains": 25},
+          "thorough": {"read_bytes_compared": 1000000, "writes": 100000, "n_configs": 36, "slave_side_stability_checks": 100000, "socbus_histories": 600,
+                       "n_socbus_adapter_chains": 25}}
 SHARD_TIMEOUT = {"quick": 900, "thorough": 3000}
 N_SAMPLES = 3
 WORDS = 64
@@ -64,7 +66,15 @@ def catalogue():
                 for stype in ("wb", "axil"):
                     k += 1
                     mdw, sdw = [(32, 32), (64, 32), (32, 64), (64, 64)][k % 4]
+                    axi2axil = (mtype == "axi" and std != "axi") or (std == "axi" and stype in ("axil", "wb"))
+                    # configurations that put a listed defect into its triggering situation are left out (they are judged, by
+                    # mechanism, in the element's own classes): an AXILiteUpConverter behind an AXI2AXILite (requests overlap),
+                    # an AXI2AXILite in front of an AXI-Lite slave that queues requests (hostile partner)
+                    if stype == "axil" and bdw < sdw and (mtype == "axi" or std == "axi"):
+                        continue
                     for partner in ("litex", "hostile"):
+                        if partner == "hostile" and axi2axil and stype == "axil":
+                            continue
                         out.append({"dut": "socbus", "std": std, "bdw": bdw, "mtype": mtype, "dw": mdw, "stype": stype, "sdw": sdw,
                                     "ic": ["shared", "crossbar"][(k // 4) % 2], "partner": partner})
     for cfg in c:
@@ -78,7 +88,8 @@ def catalogue():
 def plan(tier, seed):
     cat = catalogue()
     per = 3 if tier == "quick" else 40
-    cases = [{"cfg": cfg, "seed": "%d/C09/%d/%d" % (seed, ci, k)} for ci, cfg in enumerate(cat) for k in range(per)]
+    cases = [{"cfg": cfg, "seed": "%d/C09/%d/%d" % (seed, ci, k)} for ci, cfg in enumerate(cat)
+             for k in range(per if cfg["dut"] != "socbus" else max(1, per // 3))]
     n = 48 if tier == "quick" else 160
     return [{"id": "br%03d" % i, "cls": "bridge", "cases": cases[i::n]} for i in range(n)]
 
@@ -547,7 +558,7 @@ def run_case(case):
         # the adapters SoCBusHandler.add_adapter inserts for a master / slaves whose standard and width differ from the SoC bus
         from litex.soc.integration.soc import SoCBusHandler, SoCRegion
         std, bdw, mtype, stype, sdw = cfg["std"], cfg["bdw"], cfg["mtype"], cfg["stype"], cfg["sdw"]
-        base = 0x10000
+        base = 0                      # the slaves see absolute addresses: the window starts at 0, the decoy sits behind it
         bus = SoCBusHandler(standard=std, data_width=bdw, address_width=32, timeout=None, interconnect=cfg.get("ic", "shared"),
                             interconnect_register=(partner == "litex"))
         top.submodules.socbus = bus
@@ -582,7 +593,10 @@ def run_case(case):
             writes, reads = gen_axil_script(rng, dw, base, n)
             m = mk_axil_master(bench, rng, mbus, writes, reads, "litex", hostile)
         else:
-            writes, reads = gen_axi_script(rng, dw, base, n, feature="incr")
+            # full-width INCR bursts starting on a 64-bit boundary with an even number of 32-bit beats: what the AXI width
+            # converters support (the rest is the listed axi_up / axi_down findings of C10)
+            from props import c10
+            writes, reads = c10.gen_aligned(rng, dw, 64 if dw == 32 else 32, n, WORDS)
             m = mk_axi_master(bench, rng, mbus, writes, reads, "litex", hostile)
         if mtype != "wb":
             mm = port_monitors(bench, mbus, "master-side", "responses")
@@ -741,6 +755,9 @@ def run_shard(shard):
         col.ev("sim_cycles", r["cycles"])
         col.cov("configs", h({k: v for k, v in cfg.items() if k != "partner"}))
         col.cov("duts", cfg["dut"])
+        if cfg["dut"] == "socbus":
+            col.ev("socbus_histories", 1)
+            col.cov("socbus_adapter_chains", "%s%d>%s%d>%s%d" % (cfg["mtype"], cfg["dw"], cfg["std"], cfg["bdw"], cfg["stype"], cfg["sdw"]))
         col.cov("partners", cfg["partner"])
         for e in r["errs"][:1]:
             tag = "+".join(r["tags"]) or "simple-timing"
